@@ -21,56 +21,51 @@ Definition denoted (rg : registries) (labelid : str) : res (dnode * str) :=
       end
   end.
 
-Definition skipped (n : dnode) : bool :=
-  str_eqb (n_tag n) s_footnote || n_has_refuri n || startswith (n_tag n) s_desc_.
-
 (* entry rg name = what a name flagged explicit contributes: nothing (invalidated id, footnote,
    refuri, desc_ node) or (label id, implicit title) *)
-Definition entry (rg : registries) (name : str) : res (option (str * option str)) :=
+Definition entry (lr : bool) (rg : registries) (name : str) : res (option (str * option str)) :=
   match dget (nameids rg) name with
   | None => Raise KeyError
   | Some None => Ok None
   | Some (Some labelid) =>
       do nl <- denoted rg labelid;
       let '(node, lid) := nl in
-      if skipped node then Ok None else Ok (Some (lid, implicit_title_of node))
+      if skipped lr node then Ok None else Ok (Some (lid, implicit_title_of node))
   end.
 
-Lemma explicit_step_entry rg acc name :
-  explicit_step rg acc name true =
-  match entry rg name with
+Lemma explicit_step_entry lr rg acc name :
+  explicit_step lr rg acc name true =
+  match entry lr rg name with
   | Raise e => Raise e
   | Ok None => Ok acc
   | Ok (Some v) => Ok (dset acc name v)
   end.
 Proof.
-  unfold explicit_step, entry, denoted, skipped. simpl.
+  unfold explicit_step, entry, denoted. simpl.
   destruct (dget (nameids rg) name) as [[labelid|]|]; auto.
   destruct (dget (ids rg) labelid) as [node|]; auto.
   destruct (n_kind node), (n_refid node) as [rid|]; simpl;
-    try (destruct (str_eqb (n_tag node) s_footnote || n_has_refuri node
-                   || startswith (n_tag node) s_desc_); reflexivity).
+    try (destruct (skipped lr node); reflexivity).
   destruct (dget (ids rg) rid) as [node2|]; auto.
   destruct (n_names node2) as [|nm ?]; auto. simpl.
-  destruct (str_eqb (n_tag node2) s_footnote || n_has_refuri node2
-            || startswith (n_tag node2) s_desc_); reflexivity.
+  destruct (skipped lr node2); reflexivity.
 Qed.
 
-Lemma explicit_step_implicit rg acc name : explicit_step rg acc name false = Ok acc.
+Lemma explicit_step_implicit lr rg acc name : explicit_step lr rg acc name false = Ok acc.
 Proof. reflexivity. Qed.
 
 (* invariant of the loop *)
-Lemma build_from_spec rg : forall nts acc ex,
+Lemma build_from_spec lr rg : forall nts acc ex,
   NoDup (map fst nts) ->
   (forall k, In k (map fst nts) -> dget acc k = None) ->
-  build_explicit_from rg nts acc = Ok ex ->
+  build_explicit_from lr rg nts acc = Ok ex ->
   forall name,
     dget ex name =
     match dget acc name with
     | Some v => Some v
     | None =>
         match dget nts name with
-        | Some true => match entry rg name with Ok (Some v) => Some v | _ => None end
+        | Some true => match entry lr rg name with Ok (Some v) => Some v | _ => None end
         | _ => None
         end
     end.
@@ -78,11 +73,11 @@ Proof.
   induction nts as [|[k ie] nts IH]; intros acc ex Hnd Hfresh Hb name; simpl in *.
   - inversion Hb; subst. destruct (dget ex name); auto.
   - inversion Hnd as [|? ? Hk Hnd']; subst.
-    destruct (explicit_step rg acc k ie) as [acc'|e] eqn:Es; simpl in Hb; [|discriminate].
+    destruct (explicit_step lr rg acc k ie) as [acc'|e] eqn:Es; simpl in Hb; [|discriminate].
     assert (Hacc' : forall k', k' <> k -> dget acc' k' = dget acc k').
     { intros k' Hne. destruct ie.
       - rewrite explicit_step_entry in Es.
-        destruct (entry rg k) as [[v|]|]; inversion Es; subst; auto.
+        destruct (entry lr rg k) as [[v|]|]; inversion Es; subst; auto.
         apply dget_dset_other. congruence.
       - rewrite explicit_step_implicit in Es. inversion Es; subst. reflexivity. }
     assert (Hfresh' : forall k', In k' (map fst nts) -> dget acc' k' = None).
@@ -94,7 +89,7 @@ Proof.
       rewrite (Hfresh k (or_introl eq_refl)).
       destruct ie.
       * rewrite explicit_step_entry in Es.
-        destruct (entry rg k) as [[v|]|]; inversion Es; subst.
+        destruct (entry lr rg k) as [[v|]|]; inversion Es; subst.
         -- rewrite dget_dset_same. reflexivity.
         -- rewrite (Hfresh k (or_introl eq_refl)). reflexivity.
       * rewrite explicit_step_implicit in Es. inversion Es; subst.
@@ -105,18 +100,18 @@ Qed.
 
 (* the explicit table holds exactly the names flagged explicit whose id is valid and whose node
    is not a footnote / refuri target / desc_ node *)
-Lemma build_explicit_spec rg ex :
+Lemma build_explicit_spec lr rg ex :
   NoDup (map fst (nametypes rg)) ->
-  build_explicit rg = Ok ex ->
+  build_explicit lr rg = Ok ex ->
   forall name,
     dget ex name =
     match dget (nametypes rg) name with
-    | Some true => match entry rg name with Ok (Some v) => Some v | _ => None end
+    | Some true => match entry lr rg name with Ok (Some v) => Some v | _ => None end
     | _ => None
     end.
 Proof.
   intros Hnd Hb name. unfold build_explicit in Hb.
-  rewrite (build_from_spec rg _ [] ex Hnd (fun _ _ => eq_refl) Hb name). reflexivity.
+  rewrite (build_from_spec lr rg _ [] ex Hnd (fun _ _ => eq_refl) Hb name). reflexivity.
 Qed.
 
 (* ---- the reference loop ---- *)
@@ -222,20 +217,20 @@ Qed.
 Lemma missing_sphinx nl suppressed slug_hash ex slugs r :
   dget ex (r_frag r) = None -> dget slugs (r_frag r) = None ->
   let o := resolve_one nl true suppressed slug_hash ex slugs r in
-  o_pending o = true /\ o_warn o = [] /\ o_refid o = None /\ o_fill o = None.
-Proof. intros H1 H2. unfold resolve_one. rewrite H1, H2. simpl. auto. Qed.
+  o_pending o = true /\ o_warn o = [] /\ o_refid o = None /\ o_fill o = None /\ o_pline o = r_line r.
+Proof. intros H1 H2. unfold resolve_one. rewrite H1, H2. simpl. auto 6. Qed.
 
-Lemma apply_ok nl sphinx suppressed slug_hash rg slugs refs outs :
-  apply nl sphinx suppressed slug_hash rg slugs refs = Ok outs ->
-  exists ex, build_explicit rg = Ok ex /\
+Lemma apply_ok nl sphinx suppressed slug_hash lr rg slugs refs outs :
+  apply nl sphinx suppressed slug_hash lr rg slugs refs = Ok outs ->
+  exists ex, build_explicit lr rg = Ok ex /\
              outs = map (resolve_one nl sphinx suppressed slug_hash ex slugs) refs.
 Proof.
-  unfold apply. destruct (build_explicit rg) as [ex|e]; simpl; [|discriminate].
+  unfold apply. destruct (build_explicit lr rg) as [ex|e]; simpl; [|discriminate].
   intro H. inversion H; subst. eauto.
 Qed.
 
-Lemma refs_preserved nl sphinx suppressed slug_hash rg slugs refs outs :
-  apply nl sphinx suppressed slug_hash rg slugs refs = Ok outs ->
+Lemma refs_preserved nl sphinx suppressed slug_hash lr rg slugs refs outs :
+  apply nl sphinx suppressed slug_hash lr rg slugs refs = Ok outs ->
   length outs = length refs /\
   map o_frag outs = map r_frag refs /\
   Forall2 (fun r o => r_has_text r = true -> o_fill o = None) refs outs.
@@ -292,4 +287,27 @@ Proof.
   intro Ht. split; intros.
   - eapply fill_explicit; eauto.
   - erewrite fill_slug by eauto. destruct (nonempty title); reflexivity.
+Qed.
+
+(* an empty link to a missing target ends up with a system message and no visible text
+   (the "#target" fallback is only reached when the warning is suppressed) *)
+Lemma missing_empty_text_not_filled :
+  exists nl r, r_has_text r = false /\
+    let o := resolve_one nl false false true [] [] r in
+    o_fill o = None /\ o_msg o = true /\ o_refid o = Some (nl (r_frag r)).
+Proof.
+  exists (fun s => s), {| r_frag := [120]; r_has_text := false; r_line := Some 1 |}.
+  vm_compute. auto.
+Qed.
+
+(* before the fix an id attribute on an external link ([t](https://..){#x}) was not a target *)
+Lemma attr_id_on_link_before_fix :
+  exists rg name,
+    dget (nametypes rg) name = Some true /\
+    (exists ex, build_explicit true rg = Ok ex /\ dget ex name = None) /\
+    (exists ex v, build_explicit false rg = Ok ex /\ dget ex name = Some v).
+Proof.
+  exists {| nametypes := [([120], true)]; nameids := [([120], Some [120])];
+            ids := [([120], DN [114;101;102;101;114;101;110;99;101] KOther None true [[120]] [116] [])] |}, [120].
+  vm_compute. split; [reflexivity|]. split; eexists; [|eexists]; split; reflexivity.
 Qed.
